@@ -311,15 +311,21 @@ impl Tablet {
         }
 
         if any_updated {
-            // Now that we know we have some nodes to update we need to go over
-            // per-dc nodes and update them too.
-            for dc_nodes in self.replicas.per_dc.values_mut() {
-                for (node, _) in dc_nodes.iter_mut() {
-                    if let Some(new_node) = recreated_nodes.get(&node.host_id) {
-                        *node = Arc::clone(new_node);
-                    }
+            // Now that we know we have some nodes to update we need to update
+            // per-dc nodes too. A node may have been recreated precisely because
+            // its datacenter changed, so swapping the `Node` objects inside the
+            // existing per-DC lists is not enough: the grouping itself is rebuilt
+            // from `all` (the same way `from_raw_replicas` builds it).
+            let mut per_dc: HashMap<String, Vec<(Arc<Node>, Shard)>> = HashMap::new();
+            for (node, shard) in self.replicas.all.iter() {
+                if let Some(dc) = node.datacenter.as_ref() {
+                    per_dc
+                        .entry(dc.clone())
+                        .or_default()
+                        .push((Arc::clone(node), *shard));
                 }
             }
+            self.replicas.per_dc = per_dc;
         }
     }
 
